@@ -397,13 +397,25 @@ def check_binary(ctx, rng, clean):
             if 'unreachable' in label:
                 ctx.event('corruption-with-unreachable-node')
             budget = 600 * (nn + 2) * (nn + 2) + 30000
-            via = 'load' if (ctx.evaluations % 2) else 'constructor'
+            via = ('load', 'constructor', 'constructor-on-an-object-accepted-before')[ctx.evaluations % 3]
             ctx.event('model-built-via-' + via)
             w['built_via'] = via
+            mobj = None
+            if via == 'constructor-on-an-object-accepted-before':
+                # the application holds ONE model object: a checker was built on it while it was sound, then the object was edited
+                # (the same corruption, applied in place) and a checker is built on it again - the rules hold for the model as it is now
+                try:
+                    mobj = bny.LvsModel.parse(blob)
+                    Checker(mobj, lvs.USER_FNS)
+                    mut(mobj)
+                except Exception:   # noqa
+                    ctx.event('corruption-not-applicable-in-place')
+                    mobj = None
+                    via = 'constructor'
             try:
                 with monitors.Steps(limit=budget):
                     # both documented ways of getting a checker from a binary model
-                    ck = Checker.load(wire, lvs.USER_FNS) if via == 'load' else Checker(bny.LvsModel.parse(wire), lvs.USER_FNS)
+                    ck = Checker.load(wire, lvs.USER_FNS) if via == 'load' else Checker(mobj if mobj is not None else bny.LvsModel.parse(wire), lvs.USER_FNS)
                 err = None
             except monitors.BudgetExceeded:
                 ctx.report('loader-does-not-terminate', f'loading exceeded {budget} interpreter events', w)
@@ -452,6 +464,85 @@ def check_binary(ctx, rng, clean):
                     ctx.event(f'query-raised-{type(e).__name__}')
 
 
+def check_deep_models(ctx, rng, clean):
+    """Binary models with a chain of value edges deeper than the interpreter's recursion limit, one node of the chain broken
+    (signer id / edge destination out of range, an option with Value and Tag): such a model must not be accepted.  Whether the
+    refusal is the model error or - as the recursive loader gives for any model this deep - a RecursionError is recorded, not
+    judged (nothing documented covers models of that depth); acceptance of the broken one is."""
+    if not clean:
+        return
+    schema, text, checker = clean[0]
+    for depth_ in ((1400,) if ctx.quick else (1100, 1400, 3000)):
+        for where in (0.5, 0.9, 0.1):
+            for kind in ('signer-id', 'edge-destination', 'option-shape', 'none'):
+                m = bny.LvsModel.parse(checker.save())
+                nn = len(m.nodes)
+                prev = m.start_id
+                for j in range(depth_):
+                    nd = bny.Node()
+                    nd.id = nn + j
+                    nd.parent = prev
+                    nd.rule_name = []
+                    nd.v_edges = []
+                    nd.p_edges = []
+                    nd.sign_cons = []
+                    e = bny.ValueEdge()
+                    e.dest = nd.id
+                    e.value = bytes(rc.comp(8, b'deep' if j == 0 else b'a'))
+                    m.nodes[prev].v_edges = list(m.nodes[prev].v_edges) + [e]
+                    m.nodes.append(nd)
+                    prev = nd.id
+                tgt = m.nodes[nn + int(depth_ * where)]
+                if kind == 'signer-id':
+                    tgt.sign_cons = [len(m.nodes) + 7]
+                elif kind == 'edge-destination':
+                    e = bny.ValueEdge()
+                    e.dest = len(m.nodes) + 3
+                    e.value = bytes(rc.comp(8, b'nowhere'))
+                    tgt.v_edges = list(tgt.v_edges) + [e]
+                elif kind == 'option-shape':
+                    pe = bny.PatternEdge()
+                    pe.dest = tgt.v_edges[0].dest
+                    pe.tag = 1
+                    op = bny.ConstraintOption()
+                    op.value = bytes(rc.comp(8, b'v'))
+                    op.tag = 1
+                    pc = bny.PatternConstraint()
+                    pc.options = [op]
+                    pe.cons_sets = [pc]
+                    tgt.p_edges = [pe]
+                    tgt.v_edges = []
+                try:
+                    wire = bytes(m.encode())
+                except Exception:   # noqa
+                    ctx.event('corruption-not-encodable')
+                    continue
+                w = {'chain_depth': depth_, 'broken_node_at': where, 'corruption': kind}
+                ctx.case(('deep', depth_, where, kind), nontrivial=True)
+                ctx.event('deep-model-' + ('broken' if kind != 'none' else 'sound'))
+                try:
+                    ck = Checker.load(wire, lvs.USER_FNS)
+                    err = None
+                except BaseException as e:   # noqa
+                    if isinstance(e, (KeyboardInterrupt, SystemExit)):
+                        raise
+                    err = e
+                ctx.event('deep-model:' + ('accepted' if err is None else type(err).__name__))
+                if kind != 'none' and err is None:
+                    ctx.report(f'broken-model-accepted:deep-chain:{kind}', f'a model whose chain of {depth_} nodes contains a node with a broken {kind} loaded without error', w)
+                elif kind == 'none' and err is None:
+                    # accepted: queries along the chain terminate (by returning or by raising)
+                    name = [rc.comp(8, b'deep')] + [rc.comp(8, b'a')] * (depth_ - 1)
+                    try:
+                        with monitors.Steps(limit=400 * (depth_ + 10) * 8):
+                            list(ck.match(name))
+                        ctx.event('query-terminated')
+                    except monitors.BudgetExceeded:
+                        ctx.report('query-does-not-terminate', 'a query along a deep chain exceeded its step budget', w)
+                    except (RecursionError, Exception):   # noqa
+                        ctx.event('deep-query-raised')
+
+
 def root_child(model, label):
     try:
         i = int(label.split('.')[0][4:])
@@ -466,8 +557,12 @@ def run(ctx):
     monitors.selftest()
     clean = check_text(ctx, rng)
     check_binary(ctx, rng, clean)
+    if ctx.shard == 0:
+        check_deep_models(ctx, rng, clean)
+        ctx.need_event('deep-model-broken')
     need = ['clean-schema-accepted', 'rejected-with-schema-error', 'corruption-breaking', 'corruption-benign', 'rejected-with-model-error',
-            'query-terminated', 'signed-rule-pattern-schema-accepted', 'corruption-with-unreachable-node', 'model-built-via-load', 'model-built-via-constructor']
+            'query-terminated', 'signed-rule-pattern-schema-accepted', 'corruption-with-unreachable-node', 'model-built-via-load', 'model-built-via-constructor',
+            'model-built-via-constructor-on-an-object-accepted-before']
     for k in need:
         ctx.need_event(k)
     ctx.assumptions = ['documented schema error = SemanticError (from compile_lvs or Checker()), documented model error = LvsModelError',
